@@ -35,7 +35,7 @@ PROFILES = {
     "memofail": dict(p_memo=1.0, p_probe=0.7, p_lookahead=0.15, w_extern=1, nrules=(3, 6), p_check=0.35, p_ccheck=0.2, w_char=2),
     "dupfields": dict(nrules=(2, 4), depth=4, small_fieldpool=3, p_multitype=0.85, w_struct=8, w_string=3, w_unit=0, w_alias=0,
                       w_enum=0, w_char=1, p_include=0.15, p_lookahead=0.03, p_noskip=0.1, dense_fields=True),
-    "leftrec": dict(leftrec=1.0, p_memo=0.1, p_position=0.3, p_check=0.4),
+    "leftrec": dict(leftrec=1.0, p_memo=0.1, p_position=0.3, p_check=0.4, p_probe=0.5),
     "ws": dict(p_noskip=0.5, p_user_ws=0.35, p_include=0.25, w_string=3, p_position=0.3, p_ws_lit=0.15),
     "position": dict(p_position=0.8, p_unicode=0.3, w_string=3, w_enum=2, p_memo=0.15, leftrec=0.15),
     "errors": dict(p_lookahead=0.25, p_check=0.25, w_extern=1, w_char=2, p_ccheck=0.3, p_eoi_root=0.8),
@@ -48,7 +48,7 @@ PROFILES = {
     # are where single-feature profiles are blind; one shared run of this profile is part of most quick tiers
     "mix": dict(p_memo=0.25, leftrec=0.3, p_check=0.35, p_ccheck=0.3, w_extern=2, w_char=2, user_ctx=0.25, p_user_ws=0.2,
                 p_include=0.2, p_position=0.4, p_unicode=0.3, p_lookahead=0.15, p_multitype=0.35, p_box=0.2, w_enum=2,
-                w_alias=1, p_noskip=0.35, p_keywords=0.1, p_insens=0.12, nrules=(3, 8), p_ws_lit=0.08),
+                w_alias=1, p_noskip=0.35, p_keywords=0.1, p_insens=0.12, nrules=(3, 8), p_ws_lit=0.08, p_probe=0.5),
 }
 
 
@@ -557,6 +557,16 @@ class Gen:
         for ru in rules:
             if "leftrec" in ru.directives and self.coin(0.25):
                 ru.directives.insert(self.r.randint(0, len(ru.directives)), "memoize")
+        # plain @memoize rules evaluated at the position where a left-recursive rule starts (atoms / factors):
+        # their cached results must survive the growth of the seed
+        for ru in list(rules):
+            if "leftrec" not in ru.directives and ru.name in ("LAtom", "LFactor", "LMul", "LAdd", "LSub") and self.coin(0.3):
+                ru.directives.append("memoize")
+                if self.p["p_probe"] > 0 and self.coin(self.p["p_probe"]) and self.probe_id < 16:
+                    pn = "Probe%d" % self.probe_id
+                    self.extra_rules.append(ExternRule(pn, ["vfrt", "vfu", "probe_%d%s" % (self.probe_id, "c" if self.user_ctx else "")]))
+                    self.probe_id += 1
+                    ru.body = Cho([Seq([Ref(pn), Grp(ru.body)])])
         # checks on the left-recursive rule itself: a check that rejects one growth step must stop the growth there
         for ru in rules:
             if "leftrec" in ru.directives and not ru.checks():
